@@ -27,7 +27,7 @@ import (
 //     checked for linearizability against a sequential set model with porcupine.
 
 var c04Knobs = Knobs{
-	Clients: [2]int{3, 6}, TCPClients: [2]int{0, 2}, Peers: [2]int{2, 4}, Steps: [2]int{20, 45}, V6: 20, SecondListener: 50, Deny: 20,
+	Clients: [2]int{3, 6}, TCPClients: [2]int{0, 2}, Peers: [2]int{2, 4}, Steps: [2]int{20, 45}, V6: 20, SecondListener: 50, Deny: 20, Impostor: 30,
 	TimeoutSets: defaultTimeouts, Lifetimes: []int64{-1, -1, 600, 1800, 3599, 3601},
 	W: map[string]int{"allocate": 4, "refresh": 3, "refresh0": 2, "perm": 5, "chan": 6, "data": 10, "probe": 3, "time": 2, "closetcp": 1},
 }
@@ -256,6 +256,13 @@ func init() {
 		Run: func(t *testing.T, rng *rand.Rand, rec *sim.Rec, tier string, caseNo int) {
 			if caseNo%5 == 4 {
 				runC04Burst(t, rng, rec, tier, caseNo)
+
+				return
+			}
+			if caseNo%10 == 3 {
+				// several TCP allocations connecting to the same peers: one client's peer connections
+				// must not influence another's
+				runC16(t, rng, rec, tier, caseNo)
 
 				return
 			}
